@@ -1,5 +1,5 @@
 (* C14 — the summary is truthful and untouched files really are untouched. *)
-From AD Require Import Bytes Outcome Gen Fs Helper HelperProofs Config ConfigProofs Walk WalkProofs.
+From AD Require Import Bytes Outcome Gen Fs Helper HelperProofs Config ConfigProofs Walk WalkProofs Rewrite.
 
 (* Stats::add_one (arms regenerated from mod.rs): after any sequence of results, processed = #Noop + replaced +
    rewritten + unsupported + errors, and each counter is the number of results of its class *)
@@ -54,9 +54,26 @@ Theorem C14_merge_all_counters : forall a b,
                            (st_rewritten a + st_rewritten b) (st_mis a + st_mis b) (st_errors a + st_errors b).
 Proof. exact stats_add_all_fields. Qed.
 
+(* a file with several hard links (fault-free run, handler output y): the result is Rewritten, the path still
+   names the SAME inode, which now holds y with the original mode, owner and link count and the original mtime
+   put back; every other name and every other pre-existing inode is as before, the temporary name is gone *)
+Theorem C14_rewritten_same_inode : forall e prof eager handler p f0 ip meta y,
+  names f0 p = Some ip -> inodes f0 ip = Some meta -> i_nlink meta <> 1 ->
+  ip < next_ino f0 -> names f0 (tmp_path p) = None ->
+  handler (i_data meta) = Ok (y, true) ->
+  let r := run_handler e None Real prof eager handler p (init_sim f0) in
+  let f' := s_fs (fst r) in
+  snd r = Some Rewritten /\
+  names f' p = Some ip /\ names f' (tmp_path p) = None /\
+  (forall q, q <> tmp_path p -> names f' q = names f0 q) /\
+  inodes f' ip = Some (with_mtime (i_mtime meta) (with_data y meta)) /\
+  (forall j, j <> ip -> j < next_ino f0 -> inodes f' j = inodes f0 j).
+Proof. exact rewritten_in_place. Qed.
+
 Print Assumptions C14_partition.
 Print Assumptions C14_parallel_sum.
 Print Assumptions C14_one_count_per_entry.
 Print Assumptions C14_replaced_new_inode.
 Print Assumptions C14_not_replaced_untouched.
 Print Assumptions C14_merge_all_counters.
+Print Assumptions C14_rewritten_same_inode.
